@@ -87,6 +87,11 @@ def fresh_of(ex, st, shape, name, scope=None):
         d_ = DictV(fresh(name + "_has", z3.ArraySort(I, B)), fresh(name + "_varr", A2), fresh(name + "_vlen", A),
                    Seq("list", "int", fresh(name + "_order", A), fresh(name + "_order_n")))
         st.assume(d_.order.n >= 0)
+        # representation invariant of every Python dict: the insertion order lists keys (each present) without repetition
+        i_, j_ = z3.Int("i#dord"), z3.Int("j#dord")
+        st.assume(z3.ForAll([i_], z3.Implies(z3.And(0 <= i_, i_ < d_.order.n), d_.has[d_.order.arr[i_]]), patterns=[d_.order.arr[i_]]))
+        st.assume(z3.ForAll([i_, j_], z3.Implies(z3.And(0 <= i_, i_ < j_, j_ < d_.order.n), d_.order.arr[i_] != d_.order.arr[j_]),
+                            patterns=[z3.MultiPattern(d_.order.arr[i_], d_.order.arr[j_])]))
         return d_
     if shape == "arr":
         return fresh(name, A)
